@@ -53,7 +53,7 @@ def doubles(rng, n):
 RADIX = ["", "undefined", "2", "8", "10", "16", "36", "3", "0", "1", "37", "NaN", "10.9", "-1", '"16"', "2.9", "36.9", "1.9", "36.0000001", "1.9999999", "-0.5", "null", "true", "Infinity", '"0x10"', "4294967298", "1e21"]
 # around every edge of the accepted ranges: integers, fractions that truncate into and out of range, the other types
 DIGITS = ["", "undefined", "0", "1", "2", "3", "10", "20", "21", "100", "101", "-1", "NaN", "1.9", '"2"', "-0.5", "-0.9999", "-1.5", "-0", "0.5", "0.9999", "100.5", "100.9999", "101.5", "99.9", "20.5", "21.5",
-          '"-0.1"', '"100.9"', '"1e2"', '" 3 "', '""', '"abc"', "null", "true", "false", "Infinity", "-Infinity", "1e21", "4294967297", "-4294967295", "2147483648.5", "[]", "[2]", "[2, 3]"]
+          '"-0.1"', '"100.9"', '"1e2"', '" 3 "', '""', '"abc"', "null", "true", "false", "Infinity", "-Infinity", "1e21", "4294967297", "-4294967295", "2147483648.5", "[]", "[2]", "[2, 3]", "({valueOf: function () { return 2; }})", "({toString: function () { return '3'; }})", "({valueOf: function () { return '1'; }, toString: function () { return '9'; }})"]
 
 
 def format_progs(ds):
